@@ -89,6 +89,18 @@ def build_coq(clean=False):
     return sh("make -j16 2>&1 | tail -40", 3000, cwd=COQ)
 
 
+def build_model_if_stale():
+    """the extracted model (bin/driver) follows the Coq sources: rebuild it when any model
+    file or the OCaml glue is newer than the binary"""
+    drv = os.path.join(VERIF, "bin", "driver")
+    srcs = [f for f in glob.glob(os.path.join(COQ, "**", "*.v"), recursive=True)
+            if "/Props/" not in f and "/Gen/" not in f and "/scratch/" not in f]
+    srcs += [os.path.join(VERIF, "ocaml", x) for x in ("driver.ml", "main.ml")]
+    if os.path.exists(drv) and all(os.path.getmtime(f) <= os.path.getmtime(drv) for f in srcs if os.path.exists(f)):
+        return 0, ""
+    return sh(os.path.join(VERIF, "tools", "build_model.sh") + " 2>&1 | tail -20", 1800, cwd=VERIF)
+
+
 def compile_props(prop):
     """recompile Props/<prop>.v from scratch; returns (ok, theorems, assumptions, log)"""
     src = os.path.join(COQ, "Props", prop + ".v")
@@ -192,6 +204,10 @@ def main():
         rc, out = build_coq(clean=(tier == "thorough"))
         if rc != 0 or "Error" in out:
             broken.append(("coq-build", out[-3000:]))
+        else:
+            rc, out = build_model_if_stale()
+            if rc != 0 or "Error" in out:
+                broken.append(("model-extraction", out[-3000:]))
     ok, theorems, assumptions, plog = compile_props(prop)
     if not ok:
         broken.append(("Props/%s.v" % prop, plog[-3000:]))
